@@ -1,4 +1,5 @@
 #![allow(dead_code)]
+mod chunker_l1;
 mod clone_l1;
 mod reader_l1;
 mod recreader;
@@ -14,6 +15,7 @@ fn main() {
     match args[1].as_str() {
         "clone-l1" => clone_l1::main(&args[2..]),
         "reader-l1" => reader_l1::main(&args[2..]),
+        "chunker-l1" => chunker_l1::main(&args[2..]),
         x => {
             eprintln!("unknown subcommand {}", x);
             std::process::exit(2);
